@@ -42,9 +42,14 @@ func init() {
 		return stage{Name: "hands", Harness: "hand", Test: "TestHand", Mode: "rapid", Quick: q, Thorough: th}
 	}
 	tiny := stage{Name: "tiny-games", Harness: "hand", Test: "TestTinyGames", Mode: "enum", Shards: 1}
+	// two hands alive at once, decks straight from the engine's constructors,
+	// operations interleaved: state shared between games shows up here
+	two := func(q, th int) stage {
+		return stage{Name: "two-tables", Harness: "hand", Test: "TestTwoTables", Mode: "rapid", Quick: q, Thorough: th}
+	}
 	plans["C01"] = plan{Level: "exploration", Assume: handAssume,
 		Rule:   "cases = generated (configuration, deck, play history incl. hostile amounts) driven through the real engine, chip identities checked after every operation; non-trivial = hand with >= 2 distinct positive contribution totals at close, or a stack within 1 chip of a forced amount, or a hostile/refused sized request; distinct = distinct (configuration, operation list)",
-		Stages: []stage{hand(40000, 1500000)}}
+		Stages: []stage{two(3000, 100000), hand(40000, 1500000)}}
 	plans["C04"] = plan{Level: "exploration", Assume: handAssume,
 		Rule:   "cases = generated hands with up to 6 negative probes at every wait point (table operation of another phase, action of another seat, unoffered action of the current seat, any action outside a round); every probe must return an error and leave the state JSON (minus updated_at) identical; turn order checked at every turn; non-trivial = hand with at least one probe; counters.probes = probes executed",
 		Stages: []stage{hand(16000, 400000)}}
@@ -59,28 +64,28 @@ func init() {
 		Stages: []stage{hand(10000, 300000)}}
 	plans["C10"] = plan{Level: "exploration", Assume: handAssume,
 		Rule:   "cases = (a) engine hands with themed decks, every seat checked on flop, turn, river and at close against the harness' own enumeration of admissible selections (public evaluator + independent reference ranker); (b) direct calls of GetAllPossibleCombinations on drawn hole/board sets; non-trivial = >= 4 board cards and best category >= pair; counters.evaluations_checked = player evaluations checked",
-		Stages: []stage{{Name: "direct", Harness: "cards", Test: "TestC10Direct", Mode: "rapid", Quick: 60000, Thorough: 1500000}, hand(16000, 500000)}}
+		Stages: []stage{{Name: "direct", Harness: "cards", Test: "TestC10Direct", Mode: "rapid", Quick: 60000, Thorough: 1500000}, two(2000, 60000), hand(16000, 500000)}}
 	plans["C11"] = plan{Level: "exploration", Assume: handAssume,
 		Rule:   "cases = generated hands with boundary bankrolls; at every decision point the offered list is compared with the table derived from the statement and the effect of the accepted action is checked; non-trivial = hand with a decision where the stack is within 1 chip of the wager to match, the minimum raise level or the minimum bet",
-		Stages: []stage{hand(40000, 1500000)}}
+		Stages: []stage{two(3000, 100000), hand(40000, 1500000)}}
 	plans["C12"] = plan{Level: "exploration", Assume: handAssume,
 		Rule:   "cases = generated hands in which every bet/raise decision draws its amount from all classes (negative, zero, below/at the wager, undersized, minimum, above minimum, at/above the stack, +-2^62); classes:request:* is the histogram; non-trivial = hand with at least one sized request",
-		Stages: []stage{hand(60000, 2000000)}}
+		Stages: []stage{two(3000, 100000), hand(60000, 2000000)}}
 	plans["C13"] = plan{Level: "exploration", Assume: handAssume,
 		Rule:   "cases = forced-bet configurations driven Start..PayBlinds: exhaustive grid (n<=4, ante<=2, SB<=2, BB 1..3, dealer blind 0/2, bankrolls 1..5, all buttons, live/dead SB) + rapid G-CFG; non-trivial = a stack within 1 chip of a forced amount it owes",
 		Stages: []stage{{Name: "grid", Harness: "hand", Test: "TestForcedGrid", Mode: "enum", Shards: 1}, {Name: "forced", Harness: "hand", Test: "TestForcedRapid", Mode: "rapid", Quick: 60000, Thorough: 3000000}, hand(6000, 150000)}}
 	plans["C14"] = plan{Level: "exploration", Assume: handAssume,
 		Rule:   "cases = generated hands (all endings), card accounting checked after every operation; ShuffleCards on drawn sub-decks; pairs of hands alive at the same time with decks taken from the engine's constructors and interleaved operations; non-trivial = hand that reached the flop; shuffle input of >= 2 cards; pair of hands with >= 4 switches between them",
-		Stages: []stage{{Name: "shuffle", Harness: "hand", Test: "TestShuffle", Mode: "rapid", Quick: 10000, Thorough: 300000}, {Name: "two-tables", Harness: "hand", Test: "TestTwoTables", Mode: "rapid", Quick: 6000, Thorough: 200000}, hand(40000, 1500000)}}
+		Stages: []stage{{Name: "shuffle", Harness: "hand", Test: "TestShuffle", Mode: "rapid", Quick: 10000, Thorough: 300000}, two(6000, 200000), hand(40000, 1500000)}}
 	plans["C15"] = plan{Level: "exploration", Assume: handAssume,
 		Rule:   "cases = states of generated hands (every 3rd operation in quick, every one in thorough, always at close) x every viewer seat and the observer; the view's JSON text must contain no secret card string, re-inserting the redacted fields must reproduce the state; non-trivial = hand with a burned card or closed with >= 1 folded and >= 2 shown hands; counters.views = views checked",
 		Stages: []stage{hand(6000, 150000)}}
 	c02 := plans["C02"]
-	c02.Stages = append(c02.Stages, stage{Name: "hands", Harness: "hand", Test: "TestHand", Mode: "rapid", Quick: 16000, Thorough: 400000})
+	c02.Stages = append(c02.Stages, two(2000, 60000), stage{Name: "hands", Harness: "hand", Test: "TestHand", Mode: "rapid", Quick: 16000, Thorough: 400000})
 	c02.Assume = append(c02.Assume, handAssume...)
 	plans["C02"] = c02
 	c16 := plans["C16"]
-	c16.Stages = append(c16.Stages, stage{Name: "hands", Harness: "hand", Test: "TestHand", Mode: "rapid", Quick: 16000, Thorough: 400000})
+	c16.Stages = append(c16.Stages, two(2000, 60000), stage{Name: "hands", Harness: "hand", Test: "TestHand", Mode: "rapid", Quick: 16000, Thorough: 400000})
 	c16.Assume = append(c16.Assume, handAssume...)
 	plans["C16"] = c16
 
